@@ -14,6 +14,12 @@
 (*   Geometric    p = sum w / sum w (x + 1)     (x = failures before the   *)
 (*                first success, pmf (1-p)^x p)                            *)
 (*   Categorical  theta_k = sum_{x_i = k} w_i / sum w                      *)
+(*   NegBinomial  (r fixed, pmf Gamma(r+x)/Gamma(x+1)/Gamma(r) p^x (1-p)^r) *)
+(*                p = sum w x / (r sum w + sum w x)                         *)
+(* Invariances every weighted estimator must have (checked by the driver on *)
+(* every case): multiplying all weights by one constant (adding a constant  *)
+(* to all log-weights, however large or small) does not change the         *)
+(* estimate; Translation(E, c) applied to x equals E applied to x + c.     *)
 (* All values are exact rationals (Rat.tla).  TLC enumerates every data    *)
 (* multiset up to MaxN observations over the value grid Xs with weights Ws *)
 (* and prints one case per multiset; the Go driver runs the real           *)
@@ -58,12 +64,20 @@ ExponentialMLE(d) ==
         lambda_bounded |-> [b \in 1..Len(LambdaMaxs) |-> RMin(l, LambdaMaxs[b])]]
 PoissonMLE(d) == [defined |-> ~RIsZero(SumWX(d)), lambda |-> Mean(d)]
 GeometricMLE(d) == [p |-> RDiv(SumW(d), SumWX1(d))]
+(* fixed shape parameters r the negative binomial estimator is run with *)
+NBRs == <<RInt(1), Rat(7, 2), Rat(2, 5)>>
+NegBinMLE(d) == [defined |-> ~RIsZero(SumWX(d)),
+                 p |-> [b \in 1..Len(NBRs) |-> RDiv(SumWX(d), RAdd(RMul(NBRs[b], SumW(d)), SumWX(d)))]]
+(* translation by c: the normal estimator sees x + c *)
+TransC == 3
+TranslatedMean(d) == RAdd(Mean(d), RInt(TransC))
 CategoricalMLE(d) == [theta |-> [k \in 1..K |-> RDiv(SumWAt(d, k - 1), SumW(d))]]
 
 Case(d) == [data |-> [i \in 1..Len(d) |-> [x |-> d[i][1], w |-> d[i][2]]],
             unit_weights |-> \A i \in 1..Len(d) : d[i][2] = 1,
             normal |-> NormalMLE(d), exponential |-> ExponentialMLE(d), poisson |-> PoissonMLE(d),
-            geometric |-> GeometricMLE(d), categorical |-> CategoricalMLE(d)]
+            geometric |-> GeometricMLE(d), categorical |-> CategoricalMLE(d),
+            negbin |-> NegBinMLE(d), translated_mu |-> TranslatedMean(d)]
 
 Init == data \in DataSets
 Next == UNCHANGED data
@@ -87,6 +101,13 @@ GeomScoreZero == LET p == GeometricMLE(data).p IN
 \* Exponential: d/dlambda sum w (log lambda - lambda x) = sum w / lambda - sum w x = 0
 ExpScoreZero == ExponentialMLE(data).defined =>
                   REq(RSub(RDiv(SumW(data), ExponentialMLE(data).lambda), SumWX(data)), RZero)
+
+\* NegBinomial: d/dp sum w (x log p + r log(1-p)) = sum w x / p - r sum w / (1-p) = 0
+NegBinScoreZero == NegBinMLE(data).defined =>
+                     \A b \in 1..Len(NBRs) :
+                        LET p == NegBinMLE(data).p[b] IN
+                        /\ RLt(RZero, p) /\ RLt(p, ROne)
+                        /\ REq(RSub(RDiv(SumWX(data), p), RDiv(RMul(NBRs[b], SumW(data)), RSub(ROne, p))), RZero)
 
 (* one printed case per data multiset (evaluated once per distinct initial state) *)
 Emit == PrintT(ToJson(Case(data)))
